@@ -881,3 +881,48 @@ pub fn check_owner_ids() {
         );
     }
 }
+
+/// "Wide" trees: many files in a few directories, sized so that most files get a block of
+/// their own (crossing conserve's 100-entry block cache) and, with a hunk size of 1 and
+/// more than 10 000 entries, a second index sub-directory. `n` files spread over `dirs`.
+pub fn wide_tree(n: usize, dirs: usize, len_base: u32, meta: Meta) -> Tree {
+    let mut t = Tree::empty_root(Meta { mode: 0o755, ..meta });
+    let dirs = dirs.max(1);
+    for d in 0..dirs {
+        t.0.insert(format!("/w{d}"), Node { kind: Kind::Dir, meta: Meta { mode: 0o755, ..meta } });
+    }
+    for i in 0..n {
+        let d = i % dirs;
+        // distinct (pool, len) pairs give distinct contents
+        let pool = 2 + (i % 6) as u8;
+        let len = len_base + (i / 6) as u32;
+        t.0.insert(
+            format!("/w{d}/f{i:05}"),
+            Node {
+                kind: Kind::File { pool, len },
+                meta: Meta { mode: 0o644, mtime_s: meta.mtime_s + i as i64, ..meta },
+            },
+        );
+    }
+    t
+}
+
+/// (options, tree) for the wide class. `huge` allows the > 10 000-entry variant.
+pub fn wide_strategy(huge: bool) -> BoxedStrategy<(Opts, Tree)> {
+    let n = if huge {
+        prop_oneof![6 => 110usize..320, 1 => 10_001usize..10_030].boxed()
+    } else {
+        (110usize..320).boxed()
+    };
+    (n, 1usize..4, 1u32..40, prop_oneof![Just(0u64), Just(20u64)], 1usize..4)
+        .prop_map(|(n, dirs, len_base, cap, hunk)| {
+            let opts = Opts {
+                hunk: if n > 10_000 { 1 } else { hunk * 7 },
+                block: 1 << 16,
+                cap: if n > 10_000 { 1 << 20 } else { cap },
+            };
+            let meta = Meta { mode: 0o644, mtime_s: 1_500_000_000, mtime_ns: 0, uid: 0, gid: 0 };
+            (opts, wide_tree(n, dirs, len_base, meta))
+        })
+        .boxed()
+}
